@@ -362,7 +362,7 @@ def _validate_subst(kind, old, new, template_text):
             raise ExtractError("fn-ptr-generic: old text must be `name<generics>(params with fn(..) -> R, ...)`")
         gen_extra, out, last = [], "", 0
         for i, m in enumerate(ptrs, 1):
-            gen_extra.append(f"FP{i}: Fn({m.group(1)}) -> {m.group(2)}")
+            gen_extra.append(f"FP{i}: Fn({m.group(1)}) -> {m.group(2)} + Copy")   # fn pointers are Copy; the body may pass them on repeatedly
             out += o[last:m.start()] + f": FP{i},"
             last = m.end()
         out += o[last:]
@@ -374,7 +374,7 @@ def _validate_subst(kind, old, new, template_text):
         # `C.then(|| E).transpose()?`  ->  `if C { Some(E?) } else { None }`  (bool::then runs the closure iff C; transpose
         # turns Some(Err(e)) into Err(e), which `?` returns through the same From conversion as `E?` does)
         mo = re.match(r"^(\w+)\s*\.then\(\s*\|\|\s*(.+?)\s*\)\s*\.transpose\(\)\s*\?$", rustscan.norm_ws(old), re.S)
-        mn = re.match(r"^if\s+(\w+)\s*\{\s*Some\(\s*(.+?)\s*\?\s*\)\s*\}\s*else\s*\{\s*None\s*\}$", rustscan.norm_ws(new), re.S)
+        mn = re.match(r"^\(?\s*if\s+(\w+)\s*\{\s*Some\(\s*(.+?)\s*\?\s*\)\s*\}\s*else\s*\{\s*None\s*\}\s*\)?$", rustscan.norm_ws(new), re.S)
         strip = lambda t: re.sub(r"\s+", "", t)
         if not mo or not mn or mo.group(1) != mn.group(1) or strip(mo.group(2)) != strip(mn.group(2)):
             raise ExtractError("then-transpose: shapes do not correspond")
